@@ -117,7 +117,6 @@ Proof.
     + apply (IH (u :: r) None (push_cb cb stmts_r) None (push_acb acb astmts_r) sr (nb (t :: r))); auto.
       * eapply ordered_tail; eauto.
       * cbn [length] in *. lia.
-      * cbn [cb_rel nb] in *. lia.
       * eapply push_placed; eauto.
     + apply comsr_skip. right. rewrite Ek. cbn. exact E10.
     + cbn [arows]. rewrite Ek, E10. reflexivity.
@@ -201,6 +200,6 @@ Proof.
     by (eapply Forall_impl; [|exact Hs']; intros c Hc; cbn; rewrite Hc; reflexivity).
   rewrite take_before_nil, pre_stmts_nil. cbn [rev app].
   rewrite !frev_rev, !rev_involutive.
-  destruct (post_stmts_placed _ _ _ _ Hp []) as (xs' & E & Hz). rewrite E. rewrite app_nil_r.
+  destruct (post_stmts_placed _ _ _ _ Hp []) as (xs' & E & Hz). rewrite E. rewrite !app_nil_r.
   unfold zfile. cbn. rewrite map_rev, Hz, map_rev. reflexivity.
 Qed.
